@@ -11,6 +11,7 @@ func init() {
 	vrt.Register("C10_histories", Histories)
 	vrt.Register("C10_step", Step)
 	vrt.Register("C10_builtin_override", BuiltinOverride)
+	vrt.Register("C10_deep_chains", DeepChains)
 }
 
 // ---- reference model: a tree of association maps
@@ -231,5 +232,68 @@ func BuiltinOverride() {
 	vrt.Assert(same(root.Value(name), v), "user value wins over the built-in (same context)")
 	vrt.Assert(same(child.Value(name), v), "user value wins over the built-in (child)")
 	vrt.Assert(same(grand.Value(name), v), "user value wins over the built-in (grandchild)")
+	vrt.Cover("done")
+}
+
+// ---- long chains and siblings under a deep parent: a chain of D scopes (D up
+// to 12 / 17), a key set on the root and on two arbitrary levels - one of them
+// only after every scope exists -, two sibling leaves under the deepest scope
+// that both set the key; every scope must see the nearest binding above it
+// and neither sibling the other's
+func DeepChains() {
+	maxD := 12
+	if vrt.Tier() > 0 {
+		maxD = 17
+	}
+	D := 2 + vrt.Choice(maxD-1) // 2..maxD scopes in the chain
+	chain := make([]*plush.Context, D)
+	chain[0] = plush.NewContext()
+	v0, v1, v2, va, vb := vrt.Int(), vrt.Int(), vrt.Int(), vrt.Int(), vrt.Int()
+	chain[0].Set("k", v0)
+	early := vrt.Choice(D) // set before the scopes below it exist
+	late := vrt.Choice(D)  // set after all scopes exist
+	for i := 1; i < D; i++ {
+		chain[i] = chain[i-1].New().(*plush.Context)
+		if i == early {
+			chain[i].Set("k", v1)
+		}
+	}
+	if early == 0 {
+		chain[0].Set("k", v1)
+	}
+	a := chain[D-1].New().(*plush.Context)
+	b := chain[D-1].New().(*plush.Context)
+	chain[late].Set("k", v2)
+	// the model: nearest binding at or above level i
+	want := func(i int) int {
+		for j := i; j >= 0; j-- {
+			if j == late {
+				return v2
+			}
+			if j == early {
+				return v1
+			}
+		}
+		return v0
+	}
+	obs := vrt.Choice(D)
+	got, _ := chain[obs].Value("k").(int)
+	vrt.Assert(chain[obs].Has("k"), "deep chain: a bound key is seen from every level")
+	vrt.Assert(got == want(obs), "deep chain: Value is the nearest binding on the path to the root")
+	ga, _ := a.Value("k").(int)
+	gb, _ := b.Value("k").(int)
+	vrt.Assert(ga == want(D-1) && gb == want(D-1), "deep chain: leaves see the nearest binding above them")
+	a.Set("k", va)
+	b.Set("k", vb)
+	ga, _ = a.Value("k").(int)
+	gb, _ = b.Value("k").(int)
+	vrt.Assert(ga == va, "siblings under a deep parent: each sees its own binding")
+	vrt.Assert(gb == vb, "siblings under a deep parent: each sees its own binding")
+	gp, _ := chain[D-1].Value("k").(int)
+	vrt.Assert(gp == want(D-1), "a Set on a child never changes what its parent observes")
+	// a user value under the name of a built-in, set late on a middle scope, wins in all descendants
+	chain[late].Set("len", v2)
+	gl, ok := a.Value("len").(int)
+	vrt.Assert(ok && gl == v2, "deep chain: a user value under a built-in's name wins in every descendant")
 	vrt.Cover("done")
 }
